@@ -27,7 +27,16 @@ import re
 import zlib
 
 from engines import common
-from engines.common import Acc, HarnessError, fresh_dir, git, pmap_acc, replay_generic, rmtree, rp, split
+from engines.common import Acc, HarnessError, fresh_dir, pmap_acc, replay_generic, rmtree, rp
+
+
+def git(args, **kw):
+    """common.git with an empty stdin unless input is given (git commit-tree with an empty -F file
+    falls back to reading stdin; nothing may ever inherit the runner's)."""
+    if kw.get("input") is None:
+        kw["input"] = b""
+    return common.git(args, **kw)
+
 from engines.enumerate import compositions, strings
 from engines.refmodels import gitobjects as ref
 
@@ -268,9 +277,9 @@ def check_ids(acc, o, algo, kind, where, replay):
         bad.append("get_id(%s)" % algo)
     if o.raw_length() != len(data):
         bad.append("raw_length")
-    for b in bad:
-        acc.violation("%s:%s:%s-is-not-hash-of-own-content" % (kind, where, b),
-                      "%s %s: %s disagrees with hash(%r...)" % (kind, where, b, data[:60]), replay)
+    if bad:
+        acc.violation("%s:%s:%s-is-not-hash-of-own-content" % (kind, where, bad[0]),
+                      "%s %s: %s disagree(s) with hash(%r...)" % (kind, where, "/".join(bad), data[:60]), replay)
     return not bad
 
 
@@ -487,7 +496,7 @@ def case_object(acc: Acc, algo, kind, L, tag="rust", fam="A"):
             check_ids(acc, F, algo, kind, "build", me)
             if variant == 0:
                 try:
-                    loose = (F.get_id(FMT[algo]), F.as_legacy_object())
+                    loose = (F.get_id(FMT[algo]), F.as_legacy_object(), fb)
                 except Exception as e:
                     acc.violation("%s:build:as_legacy_object-raises-%s" % (K, type(e).__name__), repr(e), me)
         # --- parse the canonical bytes
@@ -904,13 +913,18 @@ def _h_run(acc, kind, start, base, tag, seq):
     (key-suffix, summary)."""
     o, m = _h_start(kind, start, base)
     last_set = "nothing"
-    filled = []
+    time_forgotten = False
     for label, op in seq[:-1]:
         try:
             if op[0] == "obs":
                 h_observe(o, op[1])
-                filled.append(op[1])
+                if kind == "tag" and op[1] == "check" and m["tagger"] is None:
+                    # check() re-parses the object's own bytes: a tag without tagger line has no time
+                    # to read back, so tag_time/tag_timezone legitimately become None from here on
+                    time_forgotten = True
             else:
+                if time_forgotten and op[1] == "tagger" and op[2] is not None:
+                    return "pruned"  # tagger with no time: outside the canonical grammar
                 m = h_apply(kind, o, m, op)
                 last_set = label
         except _HistoryOpError as e:
@@ -938,7 +952,9 @@ def case_history(acc: Acc, kind, start, base, tag, seq):
         r = _h_run(acc, kind, start, base, tag, seq)
     acc.count("H_histories")
     acc.count("evaluations")
-    if r:
+    if r == "pruned":
+        acc.outcome("H:tag:pruned(tagger-set-after-check-forgot-the-unserialised-time)")
+    elif r:
         acc.violation("history:%s:%s" % (K, r[0]), "%s/%s start, %s" % (start, base, r[1]),
                       rp(case_history, kind, start, base, tag, [[l, list(op)] for l, op in seq]))
 
@@ -1138,16 +1154,17 @@ def git_batch(acc: Acc, algo, items):
                 suspects[i] = "unreadable-or-misnamed"
             elif got[0] != it[0].encode():
                 suspects[i] = "type-differs"
-            elif got[1] != it[2]:
-                # a content deviation from the reference is already reported by family A
-                acc.outcome("git:dulwich-loose:content-differs-from-reference")
+            elif got[1] != it[3][2]:
+                suspects[i] = "content-differs"
             else:
                 acc.count("git_reads_dulwich_loose_object")
         found, other = g_fsck(D)
+        unclean = any(not is_clean(x[0], x[1]) for x in items)
         for sev, typ, i, msg in found:
             it = named.get(i)
-            if it is not None and is_clean(it[0], it[1]) and it[2] == (g_cat_batch(D, [i])[0] or (None, None))[1] \
-                    and not (sev == b"warning" and msg in ALLOWED_INFO):
+            if unclean and msg in (b"gitmodulesBlob", b"gitmodulesMissing"):
+                continue  # blames the target of a non-blob .gitmodules entry (an object flagged unclean)
+            if it is not None and is_clean(it[0], it[1]) and it[2] == it[3][2] and not (sev == b"warning" and msg in ALLOWED_INFO):
                 suspects.setdefault(i, "fsck-" + msg.decode())
         for line in other:
             m = re.search(rb"[0-9a-f]{40,64}", line)
@@ -1380,6 +1397,7 @@ def work(task):
     elif kind == "history":
         _, k, start, base, tag, depth, prefixes, seed = task
         K = k.capitalize() if k != "tree" else "Tree.%s" % tag
+        _H_MEMO.clear()  # per task, so that every counter is a function of the task alone
         with impl(tag):
             for prefix in _seeded(prefixes, seed):
                 for seq in history_sequences(k, depth, prefix):
@@ -1389,7 +1407,9 @@ def work(task):
                     acc.count("evaluations")
                     nset = sum(1 for _, op in seq if op[0] != "obs")
                     acc.outcome("H:%s:setters=%d:observers-before-final=%d" % (k, nset, len(seq) - 1 - nset))
-                    if r:
+                    if r == "pruned":
+                        acc.outcome("H:tag:pruned(tagger-set-after-check-forgot-the-unserialised-time)")
+                    elif r:
                         acc.violation("history:%s:%s" % (K, r[0]), "%s/%s start, %s" % (start, base, r[1]),
                                       rp(case_history, k, start, base, tag, [[l, list(op)] for l, op in seq]))
     elif kind == "gitbuilt":
@@ -1451,6 +1471,18 @@ def gen_cli_commits(algo, quick):
                 if _cli_ident_ok(i):
                     out.append(_with(base, author=i))
                     out.append(_with(base, committer=i, gpgsig=PGP_SIG if t == 0 else None))
+    # without an encoding header git commit-tree rewrites bytes that are not UTF-8 (as if latin-1):
+    # such field values can only be handed to git together with an encoding
+    def utf8(b):
+        try:
+            b.decode("utf-8")
+            return True
+        except UnicodeDecodeError:
+            return False
+
+    for c in out:
+        if c["encoding"] is None and not (utf8(c["message"]) and utf8(c["author"][0]) and utf8(c["committer"][0])):
+            c["encoding"] = b"ISO-8859-1"
     return out
 
 
@@ -1502,6 +1534,11 @@ def git_built(acc: Acc, algo, quick):
                 args += ["-p", p]
             cid = git(args + ["-F", msgfile], cwd=G, env=env).stdout.strip()
             got = g_cat_batch(G, [cid])[0]
+            if algo == "sha256" and L["gpgsig"] is not None:
+                # in a sha256 repository git names the signature header gpgsig-sha256 (an unknown header to
+                # everyone else: it travels with the other extra headers)
+                L = _with(L, extra=tuple(L["extra"]) + ((b"gpgsig-sha256", L["gpgsig"]),), gpgsig=None)
+                acc.outcome("G:commit-tree:gpgsig-sha256-header")
             want = ref.serialize_commit(L)
             if got != (b"commit", want):
                 raise HarnessError("ORACLE-DISAGREEMENT: git commit-tree builds %r, the reference serialiser %r" % (got, want))
